@@ -26,6 +26,8 @@ ghost('fpos', 'int', 'read position in the local source stream')
 ghost('fi', 'intmap', 'per stream: number of FileSync records _filesync_read has returned')
 ghost('fout', 'bytes', 'bytes written to the local destination stream (pull)')
 ghost('cb_bytes', 'int', 'sum of the byte counts reported to the progress callback')
+ghost('tctx', 'opt[real]', 'timeout of the innermost async_timeout.timeout(...) context')
+ghost('tctx_on', 'bool', 'inside an async_timeout.timeout(...) context')
 ghost('session', 'int', 'transport sessions started (incremented by transport.connect)')
 ghost('topen', 'bool', 'the transport is connected')
 ghost('files_opened', 'int', 'local files opened')
